@@ -116,13 +116,14 @@ class ClientVisitor:
         # Build docstring for APIClient
         docstring_lines = []
         # Add API title and version
-        docstring_lines.append(f"{spec.title} (version {spec.version})")
+        docstring_lines.append(escape_docstring_text(f"{spec.title} (version {spec.version})"))
         # Add API description if present
         if getattr(spec, "description", None):
             desc = spec.description
             if desc is not None:
                 # Remove triple quotes, escape backslashes, and dedent
-                desc_clean = desc.replace('"""', "'").replace("'''", "'").replace("\\", "\\\\").strip()
+                desc_clean = desc.replace("\0", " ").replace('"""', "'").replace("'''", "'")
+                desc_clean = desc_clean.replace("\\", "\\\\").strip()
                 desc_clean = textwrap.dedent(desc_clean)
                 docstring_lines.append("")
                 docstring_lines.append(desc_clean)
